@@ -256,6 +256,25 @@ pub fn case(seed: u64, st: &mut Stats) {
                 }
             }
         }
+        // the generated `help` subcommand is a visible subcommand like any other (disable_help_subcommand
+        // is inherited from every level above)
+        if !c.subs.is_empty() && !c.subs.iter().any(|s| s.name == "help") {
+            let mut cur = &benign;
+            let mut disabled = cur.has(Setting::DisableHelpSubcommand);
+            for p in path.split('/').skip(1) {
+                if let Some(n) = cur.sub(p) {
+                    cur = n;
+                    disabled |= cur.has(Setting::DisableHelpSubcommand);
+                }
+            }
+            if !disabled {
+                st.count("visible.help-subcommand-checked");
+                if !page.contains("-help(") {
+                    st.violation("c19:visible-subcommand-missing:generated-help", format!("no `…-help(N)` entry on page {} | {}", path, ctx(&benign)));
+                    return;
+                }
+            }
+        }
         for s in &c.subs {
             if s.has(Setting::Hide) {
                 st.count("hidden.subcommand-checked");
